@@ -82,7 +82,9 @@ package dns
 //@   assert at ", lenmsg, ErrBuf@2" e2: off + c > len(msg) && 1 <= c && c <= 63 [C03]
 //@   assert at ", lenmsg, ErrLongDomain" e3: budget <= 0 [C03]
 //@   assert at ", lenmsg, ErrBuf@3" e4: off >= len(msg) [C03]
-//@   assert at "too many compression pointers" e5: ptr > 10 [C03]
+// (a 255-octet name has at most 127 labels and each may be reached through its own pointer: what Pack emits for
+// a repeated 127-label name takes 127 hops, none of them pointer-to-pointer)
+//@   assert at "too many compression pointers" e5: ptr > 127 [C03 C04]
 //@   assert at ", lenmsg, ErrRdata" e6: (c / 64) % 4 == 1 || (c / 64) % 4 == 2 [C03]
 // RFC 1035 4.1.4: a pointer is two octets, 11 followed by a 14-bit offset from the start of the message
 //@   assert after "off = (c^0xC0)<<8 | int(c1)" target: c >= 192 && off == (c - 192) * 256 + c1 && off < 16384 [C04]
